@@ -34,7 +34,7 @@ void do_plan(int tier)
       v.scalar = sim_plan(1000000);
       static const int lens[] = {0, 1, 2, 3, 15, 16, 17, 40};
       v.len = lens[sim_plan(tier ? 8 : 7)];
-      if (v.type == A15_VEC_STRING || v.type == A15_VEC_VEC_INT)
+      if (v.type == A15_VEC_STRING || v.type == A15_VEC_VEC_INT || v.type == A15_VEC_CSTRING || v.type == A15_VEC_VEC_CSTRING)
         v.len = (int)sim_plan(5);
       // sizes around the powers of two where staging buffers, step sizes and length fields change
       if ((v.type == A15_STRING || v.type == A15_VEC_INT) && sim_plan(40) == 0) {
@@ -52,7 +52,7 @@ void do_plan(int tier)
         v.sub[k] = lens[sim_plan(6)];
       if (v.len == 0 && v.type >= A15_STRING)
         sim_probe(P_EMPTY_CONTAINER);
-      if (v.type == A15_VEC_VEC_INT || v.type == A15_VEC_STRING)
+      if (v.type == A15_VEC_VEC_INT || v.type == A15_VEC_STRING || v.type == A15_VEC_CSTRING || v.type == A15_VEC_VEC_CSTRING)
         sim_probe(P_NESTED_VECTOR);
     }
     plan.cut_choice = (int)sim_plan(1 << 16);
